@@ -139,6 +139,9 @@ pub fn emit_def(d: &Arc<Def>, out: &mut String) {
             if s.repr_c {
                 writeln!(out, "#[repr(C)]").unwrap();
             }
+            if let Some(a) = s.align {
+                writeln!(out, "#[repr(align({}))]", a).unwrap();
+            }
             match s.style {
                 Style::Unit => writeln!(out, "pub struct {};", name).unwrap(),
                 Style::Named => {
